@@ -16,6 +16,14 @@ use super::request::RouterListApi;
 
 const MAX_INFO_TLV_LEN: usize = 60;
 
+/// The first `MAX_INFO_TLV_LEN` characters of an information TLV value.
+fn truncate_info_tlv(s: &str) -> &str {
+    match s.char_indices().nth(MAX_INFO_TLV_LEN) {
+        Some((idx, _)) => &s[..idx],
+        None => s,
+    }
+}
+
 impl RouterListApi {
     pub async fn build_response(
         &self,
@@ -123,23 +131,21 @@ impl RouterListApi {
                         // Don't trust external input, it could contain HTML
                         // or JavaScript which when we output it would be
                         // rendered in the client browser.
-                        let sys_name = html_escape::encode_safe(&sys_name);
-                        let sys_desc = html_escape::encode_safe(&sys_desc);
-
-                        let sys_name = if sys_name.len() > MAX_INFO_TLV_LEN {
-                            &sys_name[0..=MAX_INFO_TLV_LEN]
-                        } else {
-                            &sys_name[..]
-                        };
-                        let sys_desc = if sys_desc.len() > MAX_INFO_TLV_LEN {
-                            &sys_desc[0..=MAX_INFO_TLV_LEN]
-                        } else {
-                            &sys_desc[..]
-                        };
+                        //
+                        // Truncate before escaping, and only between
+                        // characters: slicing the escaped string at a byte
+                        // offset can panic inside a multi-byte character
+                        // and can cut an entity in half.
+                        let sys_name = html_escape::encode_safe(
+                            truncate_info_tlv(sys_name),
+                        );
+                        let sys_desc = html_escape::encode_safe(
+                            truncate_info_tlv(sys_desc),
+                        );
 
                         let router_id = Arc::new(format_source_id(
                             &self.router_id_template.load(),
-                            sys_name,
+                            &sys_name,
                             *ingress_id,
                         ));
                         let metrics = self
